@@ -5,7 +5,7 @@ SPEC = dict(
     id="C10", level="proof",
     lean_targets=["SwayVerif.Props.C10"], audit="SwayVerif/Audit/C10.lean",
     theorems=["tables_wellformed", "C10_encode_image_partial", "C10_encode_partial", "C10_decode_partial",
-              "C10_invalid_reverts", "C10_fastpath_encode_partial", "C10_prop_of_model",
+              "C10_invalid_reverts", "C10_fastpath_encode_partial", "C10_decoder_validates", "C10_prop_of_model",
               "C10_trivialEnum_counterexample", "C10_trivialEnum_decode_counterexample"],
     gen=[codec_trivial.gen, mem_repr.gen],
     steps=[dict(bin="sv_c09", label="sv_c10", area="c10", n_quick=700, n_thorough=7000, corpus="corpus/c10.txt",
